@@ -1,12 +1,37 @@
 package main
 
 import (
+	"go/types"
+
 	"golang.org/x/tools/go/ssa"
 )
 
 // Extension points filled in as harness families need them.
 
+// nonResidueAtom: the tower non-residue of an abstracted level is a named real constant
+// (no value is assumed: identities hold for every value of the atom).
+func (ex *Exec) nonResidueAtom(fn *ssa.Function) *Term {
+	rt := fn.Signature.Recv().Type()
+	if p, ok := rt.(*types.Pointer); ok {
+		rt = p.Elem()
+	}
+	return ex.ts.Var("nonres!"+typeKey(rt), SReal, nil, nil)
+}
+
 func (ex *Exec) realMethodExtra(st *PState, fn *ssa.Function, args []Value) (Value, bool) {
+	ts := ex.ts
+	recv := args[0]
+	switch fn.Name() {
+	case "MulByNonResidue":
+		ex.store(st, recv, ts.Mul(ex.nonResidueAtom(fn), ex.ldT(st, args[1])))
+		return recv, true
+	case "MulByNonResidueInv":
+		ex.store(st, recv, ts.RDiv(ex.ldT(st, args[1]), ex.nonResidueAtom(fn)))
+		return recv, true
+	case "MulByElement":
+		ex.store(st, recv, ts.Mul(ex.ldT(st, args[1]), ex.ldT(st, args[2])))
+		return recv, true
+	}
 	return nil, false
 }
 
